@@ -801,8 +801,10 @@ def fn_volume(case, ctx):
         ctx.label(t)
     has_interior_face = any(len(cs) == 2 for cs in ref.f2c.values())
     ctx.nontrivial(nC >= 2 and has_interior_face)
-    vols = R.measures(Vn, C)
-    assert relclose(vols, R.tet_volumes_det(Vn, C), 1e-9), "reference volume self-check"
+    # |det|/6 is accurate to ~1e-15 even on slivers (generated Delaunay cells may be thin); the Gram-matrix measure of ref_fem squares
+    # the condition number, so it only serves as a loose cross-check here
+    vols = R.tet_volumes_det(Vn, C)
+    assert relclose(vols, R.measures(Vn, C), 1e-6), "reference volume self-check"
     total = float(vols.sum())
 
     int_mode = case.get("int_mode")
